@@ -165,9 +165,29 @@ for _n in range(8, 17):
 # byte first, as on a big-endian machine, while plain objects, pointers and the harness keep the host order. The part of "regardless of byte order" that can be
 # EXECUTED on this little-endian host: code that reaches the bytes of a word through a union or struct member (seeded change C17-M: the CRC state kept in a
 # union, table index read as byte[0]) computes with the other end of the word. Only for the pure byte / word routines, whose interfaces pass no aggregates.
+def _sso_sound():
+    """-fsso-struct reverses aggregate members only; __BYTE_ORDER__ (and with it A_BYTE_ORDER) still says little-endian. Code that CONSULTS the byte order - and is right on
+    every real machine - would meet a combination no machine has, and could be reported although the property holds. So the configuration is run only while no source line
+    consults a byte-order macro (the pinned tree only DEFINES A_BYTE_ORDER / A_ORDER_*); otherwise it is omitted and the technique text of the evidence says why."""
+    import os as _o, re as _r, glob as _g
+    repo = _o.environ.get('VF_REPO', '/repo')
+    tok = _r.compile(r'\b(A_BYTE_ORDER|A_ORDER_LITTLE|A_ORDER_BIG|__BYTE_ORDER__|__ORDER_\w+_ENDIAN__|__LITTLE_ENDIAN__|__BIG_ENDIAN__|__BYTE_ORDER|BYTE_ORDER|__ARMEB__|__MIPSEB__)\b')
+    defn = _r.compile(r'^\s*#\s*(if\s+!?\s*defined\s*\(?\s*\w+\s*\)?\s*(/\*.*\*/\s*)?$|define\s+A_(BYTE_ORDER|ORDER_LITTLE|ORDER_BIG)\b|else\b|endif\b)')
+    for f in _g.glob(_o.path.join(repo, 'src', '*.c')) + _g.glob(_o.path.join(repo, 'include', 'a', '*.h')):
+        incomment = False
+        for ln in open(f, errors='replace'):
+            t = ln.strip()
+            if incomment or t.startswith('/*') or t.startswith('*') or t.startswith('//') or t.startswith('@'):
+                incomment = ('/*' in t and '*/' not in t) or (incomment and '*/' not in t)
+                continue
+            if tok.search(ln) and not defn.match(ln):
+                return False
+    return True
+
+
 def _with_sso(spec):
     base = spec['configs'] if 'configs' in spec else (lambda tier: [dict(name='default')])
-    spec['configs'] = lambda tier: base(tier) + [dict(name='sso-big-endian', flavour='san-o2', libflags=['-fsso-struct=big-endian'], nworkers=4, of=4)]
+    spec['configs'] = lambda tier: base(tier) + ([dict(name='sso-big-endian', flavour='san-o2', libflags=['-fsso-struct=big-endian'], nworkers=4, of=4)] if _sso_sound() else [])
     spec['parallel_configs'] = spec.get('parallel_configs', 1) + 1
     spec['technique'] = spec.get('technique', '') + '; the library with the byte order of its aggregate members reversed (-fsso-struct=big-endian)'
     spec['assumptions'] = list(spec.get('assumptions', [])) + ['configuration sso-big-endian: gcc scalar storage order "big-endian" for every struct and union of the library sources (not a big-endian '
